@@ -321,7 +321,7 @@ class PersistScenario(StateScenario):
         i = rng.randrange(len(st.docs))
         if "subconfig-keyfile-reload" in st.h.get("avoid", ()) and any(lp for lp in st.docs[i].get("layout", {})):
             return None
-        return {"op": "restart_load", "doc": i, "keep": rng.random() < 0.7}
+        return {"op": "restart_load", "doc": i, "keep": rng.random() < 0.7, "ctor": rng.random() < 0.3}
 
     def gen_tree_check(self, st, rng, cfg, tgts, cfgpaths, owners):
         return {"op": "tree_check", "virtual": rng.random() < 0.4}
@@ -647,7 +647,27 @@ class PersistScenario(StateScenario):
             return
         j0 = len(w.journal)
         opts = doc["opts"]
-        if opts:
+        err = None
+        if (self.prop == "C03" and op.get("ctor") and st.h.get("root_key") and doc["fmt"] in ("json", "yaml", "bson") and doc["secrets"]
+                and layout_class == "root-or-type-key" and not doc.get("layout")):
+            # the application builds its configuration straight from the saved tree: the maps of the nested sections are handed
+            # to the constructor together with the key file (constructor keywords are a loading route for sub-configurations)
+            try:
+                saved = ops.parse_doc(doc["fmt"], w.peek(w.expanduser(doc["file"])), opts)
+            except Exception:  # noqa: BLE001
+                saved = None
+            sections = {f["key"]: saved[f["key"]] for f in st.sd["root"]["fields"]
+                        if f["kind"] == "schema" and isinstance(saved, dict) and isinstance(saved.get(f["key"]), dict)}
+            if sections:
+                built, err = self._call(lambda: st.B.root(key_filename=st.h["root_key"], **sections))
+                rec.log("restart_ctor", sorted(sections), type(err).__name__ if err else "ok")
+                if err is None:
+                    fresh = built
+                    st.cfgs[0] = fresh
+                    rec.probe("built-from-saved-sections:with-secret" if any("." in p_ for p_, _ in doc["secrets"]) else "built-from-saved-sections")
+        if err is not None:
+            pass
+        elif opts:
             content = w.peek(w.expanduser(doc["file"]))
             _, err = self._call(lambda: fresh.loads(content, doc["fmt"], **{k: v for k, v in opts.items() if k != "pretty"}))
         else:
